@@ -101,6 +101,11 @@ pub enum Op {
         /// restrict to these constant indices (replays); None = all
         #[serde(default)]
         only: Option<Vec<usize>>,
+        /// after the plain sweep, ask again on the same handle in other orders: every fact between
+        /// two askings of its predecessor (A B A), and all facts once more in an order shuffled from
+        /// this seed. The answer to a fact's own words may not depend on what the handle was asked before.
+        #[serde(default, skip_serializing_if = "Option::is_none")]
+        again: Option<u64>,
     },
     /// C18: several lazily evaluated queries against one database, stepped in the given order.
     /// Isolation reference: with `iso_fresh` = Some(mode) every (text, flag) is evaluated alone on a
